@@ -485,6 +485,98 @@ func TestVerifC19Bus(t *testing.T) {
 	R.Write()
 }
 
+// c19Size: one silence whose comment has `pad` bytes is made on n0 of a two-node bus; memberlist's gossip is played
+// with the parameters memberlist really passes (3 bytes of framing per user message, the room of one UDP packet) until
+// the queue is empty, reliable sends are allowed to finish, and NO push/pull happens. n1 must hold the silence:
+// every encoded size is either gossiped or sent over the reliable channel, there is no size in between.
+func c19Size(t *testing.T, pad int) (viol, desc string, encoded int, oversized bool) {
+	synctest.Test(t, func(t *testing.T) {
+		defer func() {
+			if r := recover(); r != nil {
+				viol, desc = "panic", fmt.Sprint(r)
+			}
+		}()
+		busCreated = nil
+		s := &busSys{linkOK: map[[2]int]bool{}, made: map[string]string{}, nfKeys: map[string]bool{}}
+		s.addNode(0)
+		s.addNode(1)
+		defer func() {
+			for _, n := range busCreated {
+				n.v.Stop()
+			}
+			synctest.Wait()
+		}()
+		time.Sleep(time.Second)
+		s.setSilence(0, pad)
+		synctest.Wait()
+		for round := 0; round < 20; round++ {
+			msgs := s.nodes[0].v.GetBroadcasts(3, 1398)
+			for _, m := range msgs {
+				encoded = len(m)
+				s.nodes[1].v.NotifyMsg(m)
+			}
+			synctest.Wait()
+			time.Sleep(10 * time.Millisecond)
+			synctest.Wait()
+			if len(msgs) == 0 {
+				break
+			}
+		}
+		se, _, _ := s.nodes[0].v.OversizeCounters()
+		oversized = fmt.Sprint(se) != "0"
+		cur := s.nodes[1].dump()
+		for id, d := range s.made {
+			if _, ok := cur[id]; !ok {
+				viol = "update-not-delivered-to-connected-peer"
+				desc = fmt.Sprintf("%s: after 20 gossip rounds of n0 (GetBroadcasts(3, 1398), every packet delivered) and with the reliable link up, n1 does not hold it (gossiped bytes seen: %d, oversized sends: %v)", d, encoded, se)
+			}
+		}
+	})
+	return
+}
+
+func TestVerifC19Sizes(t *testing.T) {
+	part := "bus-size-sweep"
+	if rp := rep.ReplaySpec(); rp != nil {
+		if rp["part"] != part {
+			return
+		}
+		v, d, _, _ := c19Size(t, rep.Ints(rp["case"])[0])
+		fmt.Printf("REPLAY violation=%q %s\n", v, d)
+		R := rep.New("C19", part)
+		R.Executions = 1
+		if v != "" {
+			R.Violate(v, d, rp)
+		}
+		R.Write()
+		return
+	}
+	R := rep.New("C19", part)
+	lo, hi := 0, 1500
+	gos, over := 0, 0
+	for pad := lo; pad <= hi; pad++ {
+		v, d, _, ov := c19Size(t, pad)
+		R.Executions++
+		R.Transitions++
+		if ov {
+			over++
+		} else {
+			gos++
+		}
+		if v != "" && R.NViolations < 5 {
+			R.Violate(v, d, map[string]any{"part": part, "case": []int{pad}})
+		}
+	}
+	R.AddKey("gossiped")
+	R.AddKey("oversized")
+	if (gos == 0 || over == 0) && R.NViolations < 5 {
+		R.Violate("size-sweep-vacuous", fmt.Sprintf("gossiped %d, oversized %d", gos, over), map[string]any{"part": part, "rerun": true})
+	}
+	R.Exhaustive = true
+	R.Bound = fmt.Sprintf("every comment length %d..%d (encoded update sizes on both sides of the 700-byte threshold and of the packet size, one byte apart): %d gossiped, %d sent over the reliable channel; two nodes, no push/pull", lo, hi, gos, over)
+	R.Write()
+}
+
 func sortedKeysOf(m map[string]bool) []string {
 	var l []string
 	for k := range m {
